@@ -1,6 +1,8 @@
 package serialize
 
 import (
+	"fmt"
+
 	"github.com/kercylan98/vivid"
 	"github.com/kercylan98/vivid/internal/messages"
 )
@@ -13,10 +15,16 @@ import (
 //
 // 每串为 4 字节长度 + UTF-8；Ref 为 nil 时写空串。
 func EncodeEnvelopWithRemoting(codec vivid.Codec, envelop vivid.Envelop) (data []byte, err error) {
+	if envelop.Message() == nil {
+		return nil, fmt.Errorf("cannot encode envelop: nil message")
+	}
 	var messageDesc = messages.QueryMessageDesc(envelop.Message())
 	var writer = messages.NewWriterFromPool()
 	defer messages.ReleaseWriterToPool(writer)
 	if messageDesc.IsOutside() {
+		if codec == nil {
+			return nil, fmt.Errorf("no codec configured for external message: %T", envelop.Message())
+		}
 		data, err = codec.Encode(envelop.Message())
 		if err != nil {
 			return nil, err
@@ -80,6 +88,10 @@ func DecodeEnvelopWithRemoting(codec vivid.Codec, data []byte) (
 		}
 	} else {
 		// 外部消息反序列化
+		if codec == nil {
+			err = fmt.Errorf("no codec configured for external message %q", messageName)
+			return
+		}
 		messageInstance, err = codec.Decode(messageData)
 		if err != nil {
 			return
